@@ -43,8 +43,28 @@ def run(ctx):
                                          "implementation": str(got), "exact": str(exact), "leaves": leaves}, site=site)
     ctx.block("exhaustive-choice-space", len(ctx.violations) == ok_before, len(designs))
     ops, meta = rt.run_recorded(ctx, rt.STRAT, ctx.n(90, 1500))
-    outs = run_model(ops)
-    rt.compare_recorded(ctx, ops, meta, outs, "stratified-model-vs-impl")
+    # the same array objects refilled in place between calls (a simulation loop over preallocated buffers)
+    presets = {}
+    for name in rt.STRAT:
+        seqs = []
+        for _ in range(ctx.n(4, 40)):
+            seq = rt.reuse_sequence(rt.FUNCS[name], ctx.rng, 4)
+            if name == "stratified_permutationtest":
+                # a design on which the named 'mean' statistic is defined: >= 2 groups, both conditions in each
+                g, c = [], []
+                for k in ctx.rng.sample([1, 2, 3, 5], ctx.rng.randint(2, 3)):
+                    sz = ctx.rng.randint(2, 4); cs = [0, 1] + [ctx.rng.randint(0, 1) for _ in range(sz - 2)]
+                    g += [k] * sz; c += cs
+                for q in seq:
+                    perm = list(range(len(g))); ctx.rng.shuffle(perm)
+                    q["group"] = [g[i] for i in perm]; q["cond"] = [c[i] for i in perm]
+                    q["resp"] = rt.small_values(ctx.rng, len(g)); q["w"] = rt.weights(ctx.rng, len(g)); q["stat"] = "mean"
+            seqs += seq
+        presets[name] = seqs
+    o3, m3 = rt.run_recorded(ctx, rt.STRAT, 0, presets=presets)
+    outs = run_model(ops + o3)
+    rt.compare_recorded(ctx, ops, meta, outs[:len(ops)], "stratified-model-vs-impl")
+    rt.compare_recorded(ctx, o3, m3, outs[len(ops):], "stratified-buffers-refilled-in-place")
     # documented statistic options on the implementation: mean statistic with more than two conditions, 't'
     from permute import stratified
     for _ in range(ctx.n(60, 600)):
